@@ -11,7 +11,7 @@ Definition core (n : node) :=
   (self n, role n, term n, voted n, votes n, leader n).
 
 (* what the majority computations read *)
-Definition mem_part (n : node) := (others n, last_resp n, match_idx n).
+Definition mem_part (n : node) := (others n, last_resp n, match_idx n, commit n).
 
 (* outputs that are not election traffic / role changes *)
 Definition benign (o : out) : Prop :=
@@ -458,7 +458,7 @@ Proof. intros; unfold tick_timer; cbv zeta. destruct (_ <? _)%Z; frchain. Qed.
 Lemma fr_tick_ready : forall m s, fr m s (tick_ready s).
 Proof. intros; unfold tick_ready; cbv zeta. destruct (_ && _); frchain. Qed.
 
-Lemma fr_ae_commit : forall m c v s, fr m s (ae_commit c v s).
+Lemma fr_ae_commit : forall c v s, fr false s (ae_commit c v s).
 Proof.
   intros; unfold ae_commit. eapply fr_trans; [|fr0].
   destruct v; [|fr1]. destruct (commit (nd s) <? c); frchain.
